@@ -59,6 +59,10 @@ def run(ctx, rep):
         if x['oblig'] == 'R12.1':
             rep.bad('R12.1', 'compiler::Compiler::' + x['method'], x['construct'], x['text'], 'src/compiler.rs', key=x['kc'])
     # ---- VM side: Call arm ---------------------------------------------------------------------
+    # pushframe / popframe first: the Call arm is read through pushframe's parameterisation (entry, base) or (frame)
+    frame_contracts(ctx, rep)
+    form = ctx.__dict__.get('_pushframe_form')
+    roles = frame_roles(F)
     call = v['arms'].get('Call')
     if not call:
         raise CheckerError('no Call arm')
@@ -68,38 +72,39 @@ def run(ctx, rep):
             continue
         npaths += 1
         p = r['path']
-        names = [c[1] for c in p.calls]
         pf = [c for c in p.calls if c[1] == 'vm::VM::pushframe']
-        ok = len(pf) == 1
+        ok = len(pf) == 1 and form is not None
         why = []
+        if len(pf) == 1 and form is None:
+            why.append('pushframe does not satisfy its contract (R12.2), so the values it is given cannot be interpreted')
         if ok:
-            ipv, bpv = deref(p.env, pf[0][2][1]), deref(p.env, pf[0][2][2])
-            # base pointer: (len(stack) as u16 - 1) - argc  (any checked/unchecked spelling)
-            s_bp = show(bpv)
-            lens = [i for i, c in enumerate(p.calls) if c[1] == 'alloc::vec::Vec::<T, A>::len' and 'f0' in str(c[2]) or (c[1] == 'alloc::vec::Vec::<T, A>::len' and True)]
-            len_idx = next((i for i, c in enumerate(p.calls) if c[1] == 'alloc::vec::Vec::<T, A>::len'), None)
-            pop_idx = next((i for i, c in enumerate(p.calls) if c[1] == 'vm::VM::pop'), None)
-            fetch_idx = next((i for i, c in enumerate(p.calls) if c[1] == 'vm::VM::read_u8'), None)
-            if len_idx is None or pop_idx is None or not (len_idx < pop_idx):
+            def actual(fm):
+                if fm[0] == 'local':
+                    return deref(p.env, pf[0][2][fm[1] - 1])
+                # ('field', ('local', i), name): a field of the frame value handed in
+                fv = _norm(pf[0][2][fm[1][1] - 1], p.env, roles)
+                if fv[0] == 'call' and fv[1] == 'vm::Frame::new' and fm[2] in roles['by_name']:
+                    return fv[2][roles['by_name'][fm[2]]]
+                if fv[0] == 'agg' and fv[1] == 'vm::Frame':
+                    return fv[3][roles['field_index'][fm[2]]]
+                return ('field', fv, fm[2])
+            ipv, bpv = actual(form['ip']), actual(form['base'])
+            pops = [c[0] for c in p.calls if c[1] == vmx.POP]
+            fetches = [c[0] for c in p.calls if c[1] in vmx.FETCH]
+            lb = vmx.lin_of(F, p, bpv, pops, fetches)
+            # the frame starts at the first argument: (length on entry) - 1 (the callee value) - argc, however the pops and the
+            # reading of the length are ordered
+            if lb != vmx.Lin({'L0': 1, 1: -1, 'operand#1': -1}):
                 ok = False
-                why.append('the stack length used for the frame base must be read before the callee is popped')
-            form = base_form(bpv)
-            if form != 'len-1-argc':
-                ok = False
-                why.append('frame base is %s, expected len - 1 - argc' % s_bp[:120])
-            # ip from as_function(popped callee)[0]
+                why.append('frame base is %s (= %s), expected len - 1 - argc' % (show(bpv)[:100], lb))
             if 'as_function' not in show(ipv) or 'pop' not in show(ipv):
                 ok = False
                 why.append('entry ip does not come from the popped function value: %s' % show(ipv)[:80])
+            fetch_idx = next((i for i, c in enumerate(p.calls) if c[1] == 'vm::VM::read_u8'), None)
             if fetch_idx is None or p.calls.index(pf[0]) < fetch_idx:
                 ok = False
                 why.append('pushframe before the operand fetch (the saved ip would point at the operand)')
-            # padding trip count
-            for l in r['loops'].values():
-                tr = l['trip'] or ''
-                if not ('operand#1' in tr and 'Sub' in tr or tr.startswith('proj') or 'as_function' in tr):
-                    pass
-        rep.ob(ok, 'R12.1', fn.path, 'Call arm path %d' % npaths, '; '.join(why) or 'base = len-1-argc read before the pop; ip from the callee; pushframe after the fetch', 'src/vm.rs')
+        rep.ob(ok, 'R12.1', fn.path, 'Call arm path %d' % npaths, '; '.join(why) or 'base = len - 1 - argc; ip from the callee; pushframe after the fetch', 'src/vm.rs')
     # padding: loop pushes null, count from num_locals (>= num_locals - argc)
     pads = set()
     for r in call['paths']:
@@ -108,8 +113,6 @@ def run(ctx, rep):
                 pads.add((l['pushes'] // l['iters'], l['trip']))
     okpad = len(pads) == 1 and next(iter(pads))[0] == 1 and 'as_function' in str(call_trip_value(call))
     rep.ob(okpad, 'R12.1', fn.path, 'Call arm padding', 'local slots are padded with one null per missing slot, the count deriving from num_locals of the called function: %s' % sorted(pads), 'src/vm.rs')
-    # pushframe / popframe
-    frame_contracts(ctx, rep)
     # Return arms
     for op, want in (('ReturnValue', ['pop', 'popframe', 'push']), ('Return', ['popframe', 'push'])):
         arm = v['arms'].get(op)
@@ -197,6 +200,7 @@ def frame_contracts(ctx, rep):
     ok = len(ps) == 1 and roles['ip'] is not None and roles['base'] is not None
     why = []
     cur = {}
+    form = {}
     if ok:
         p = ps[0]
         # the current ip/bp registers: the VM fields that end up holding the parameters
@@ -205,10 +209,12 @@ def frame_contracts(ctx, rep):
             if val is None:
                 continue
             nv = _norm(val, p.env, roles)
-            if nv == ('local', 2):
+            if nv == ('local', 2) or nv == ('field', ('local', 2), roles['ip']):
                 cur['ip'] = (i, n)
-            elif nv == ('local', 3):
+                form['ip'] = nv
+            elif nv == ('local', 3) or nv == ('field', ('local', 2), roles['base']):
                 cur['bp'] = (i, n)
+                form['base'] = nv
         if 'ip' not in cur or 'bp' not in cur:
             ok = False
             why.append('the entry address / base parameters do not become the current ip / bp (%s)' % sorted(cur))
@@ -228,6 +234,12 @@ def frame_contracts(ctx, rep):
                 elif isinstance(fv, tuple) and fv and fv[0] == 'agg' and fv[1] == 'vm::Frame':
                     a_ip = _norm(fv[3][roles['field_index'][roles['ip']]], p.env, roles)
                     a_base = _norm(fv[3][roles['field_index'][roles['base']]], p.env, roles)
+                elif fv == ('local', 2) and pfn.local_ty(2) == 'vm::Frame':
+                    # the frame is handed in ready-made: it is pushed as it is, and ip / bp were taken from its fields above
+                    a_ip, a_base = form.get('ip'), form.get('base')
+                    if a_ip == ('field', ('local', 2), roles['ip']) and a_base == ('field', ('local', 2), roles['base']):
+                        okpush = True
+                    continue
                 else:
                     continue
                 if a_ip == ('local', 2) and a_base == ('local', 3):
@@ -236,6 +248,7 @@ def frame_contracts(ctx, rep):
                 ok = False
                 why.append('exactly one Frame(entry, base) must be pushed')
     rep.ob(ok, 'R12.2', pfn.path, 'contract', '; '.join(why) or 'stores the current ip into the frame being left, pushes Frame(ip, base), sets ip and bp', pfn.loc())
+    ctx.__dict__['_pushframe_form'] = form if ok else None
     pop = F.fn('vm::VM::popframe')
     ps = [p for p in AbsInt(F, pop).run() if p.exit == 'return']
     ok = len(ps) == 1 and 'ip' in cur and 'bp' in cur
